@@ -591,6 +591,7 @@ func c13GateChain(c *Ctx, bed *px.Bed, j c13Job) {
 	}
 	var all []sent
 	var wire []byte
+	chainToks := map[string]bool{}
 	st := int16(0)
 	for _, v := range c13Known {
 		if !(v > max || v < 3) {
@@ -599,7 +600,9 @@ func c13GateChain(c *Ctx, bed *px.Bed, j c13Job) {
 		for _, op := range c13Ops {
 			st++
 			all = append(all, sent{v, op, st})
-			wire = append(wire, c13Wire(v, st, 0, "", c13Msg(v, op, NewTok()))...)
+			tk := NewTok()
+			chainToks[tk] = true
+			wire = append(wire, c13Wire(v, st, 0, "", c13Msg(v, op, tk))...)
 		}
 	}
 	if len(all) == 0 {
@@ -651,7 +654,23 @@ func c13GateChain(c *Ctx, bed *px.Bed, j c13Job) {
 		r.Violate(mon.Violation{Signature: "C13/gate/chain-stray-frames/max=" + c13VerName(max), Scenario: scen,
 			Detail: fmt.Sprintf("expected %d errors + 3 SUPPORTED, got %d frames: %s", len(all), n, c13Kinds(cl.Frames()))})
 	}
-	if be := c13BackendRecv(c13Since(bed, mark)); len(be) > 0 {
+	// backend traffic caused by the rejected frames: frames in a rejected version or carrying one of their tokens (a
+	// forwarded request of an earlier case can still be on its way to the backend, the proxy's own connections speak an
+	// accepted version)
+	var be []mon.Event
+	for _, e := range c13BackendRecv(c13Since(bed, mark)) {
+		ev := primitive.ProtocolVersion(e.Ver)
+		hasTok := chainToks[e.Tok]
+		for tk := range chainToks {
+			if !hasTok && bytes.Contains(e.Body, []byte(tk)) {
+				hasTok = true
+			}
+		}
+		if ev > max || ev < 3 || hasTok {
+			be = append(be, e)
+		}
+	}
+	if len(be) > 0 {
 		r.Violate(mon.Violation{Signature: "C13/gate/chain-forwarded/max=" + c13VerName(max), Scenario: scen, Detail: "rejected frames caused backend traffic: " + c13DescribeBackend(be)})
 	}
 }
@@ -728,7 +747,13 @@ func c13Unknown(c *Ctx, bed *px.Bed, j c13Job) {
 					r.Obs("unknown_error", 1)
 				}
 			}
-			if be := c13BackendRecv(c13Since(bed, mark)); len(be) > 0 {
+			var be []mon.Event
+			for _, e := range c13BackendRecv(c13Since(bed, mark)) { // frames that stem from this one: its token, or its version byte
+				if e.Tok == tok || bytes.Contains(e.Body, []byte(tok)) || e.Ver == b&0x7f {
+					be = append(be, e)
+				}
+			}
+			if len(be) > 0 {
 				r.Violate(mon.Violation{Signature: "C13/unknown-version/" + class + "/forwarded", Scenario: scen, Witness: wit,
 					Detail: fmt.Sprintf("version byte 0x%02x caused backend traffic: %s", b, c13DescribeBackend(be))})
 			}
